@@ -227,7 +227,7 @@ class LinearFilter(LinearFilterProperties):
     if len(data_sum) == 0:
       gen_func =  ["def gen(seq, memory, zero):",
                    "  for unused in seq:",
-                   "    yield {zero}".format(zero=zero)
+                   "    yield zero"
                   ]
     else:
       expr = " + ".join(data_sum)
